@@ -9,7 +9,7 @@ RULE = ("closed generated programs, each compared ON THE IMPLEMENTATION with its
         "prepending statements that mention the same and other literals (shifts and merges constant-pool entries): value, "
         "output and error must be identical; the base programs are also compared with Compiler.v/VM.v and Sem.v. "
         "non-trivial = distinct (program, variant) pair whose program compiles")
-ASSUMPTIONS = ["literal_vs_variable and global_vs_local for ALL programs follow from compile_correct (C01), which is proved for a fragment only; outside it they rest on these metamorphic runs"]
+ASSUMPTIONS = ["literal_vs_variable and global_vs_local follow from compile_correct, proved for fragments F3 (scalars + functions, where fused instructions occur) and F2h (top-level heap values); for programs combining functions with heap values they rest on these metamorphic runs"]
 NOTES = ["proved for every machine state: fused_step_equiv (11 opcodes), fused_selection_sound/meaning, mirror_sound, pool_stable, pool_prefix, pool_nodup_preserved, const_string_copied"]
 
 MIRROR = {"+": "+", "*": "*", "==": "==", "!=": "!=", "<": ">", ">": "<", "<=": ">=", ">=": "<="}
